@@ -749,6 +749,10 @@ func c06(c *an.Ctx) {
 		}
 	})
 
+	c.Check("R-BOOL", "extractKeys step table: a field step descends into the value under its name, a type step descends into the same object exactly when __typename matches, both with the rest of the path; a missing key / __typename and an unknown step kind are errors; a failing descent fails the walk and a successful one does not", 2, func(o *an.O) {
+		ruleExtractKeysTable(c, o)
+	})
+
 	c.Check("R-DOM", "extractKeys treats a null object uniformly: the leaf step tolerates nil like the inner steps", 2, func(o *an.O) {
 		fn := c.NeedFunc(fed, "(*pathSubqueryMetadata).extractKeys")
 		node := fn.Params[1].Name()
